@@ -199,6 +199,164 @@ def check(arg):
     return v, d, (obs if v != "ok" else None), notes
 
 
+# ------------------------------------------------------------------ two fields, each with its own copy mode
+def defs2_text(keys):
+    out = [sc.HEADER]
+    for idx, (tx, m1, ty_, m2) in enumerate(keys):
+        out.append(f"""
+@python.define(inputs={{"x": python.arg(type={tx}, copy_mode=File.CopyMode.{m1}),
+                        "y": python.arg(type={ty_}, copy_mode=File.CopyMode.{m2})}})
+def D{idx}(x, y) -> int:
+    return 1
+""")
+    return "\n".join(out)
+
+
+_DEFS2 = {}
+
+
+def prepare2(ctx, quads):
+    keys = sorted({(sc.type_text(c["fields"][0]), m1, sc.type_text(c["fields"][1]), m2) for c, m1, m2 in quads})
+    mod = sc.load_defs(ctx, "c34_two_defs", defs2_text(keys))
+    _DEFS2.clear()
+    _DEFS2.update({key: getattr(mod, f"D{i}") for i, key in enumerate(keys)})
+
+
+def observe2(case, info, m1, m2, variant):
+    """both fields of a two-field case staged by ONE Job.inputs call; leaf records field by field"""
+    from pydra.engine.job import Job
+    from pydra.engine.submitter import Submitter
+
+    tx, ty_ = case["fields"]
+    T = _DEFS2[(sc.type_text(tx), m1, sc.type_text(ty_), m2)]
+    with sc.Scratch("verif_c34d_") as tmp:
+        salt = "|" + tmp.name
+        pool = sc.materialise_pool(tmp / "src", info, salt)
+        shared = {} if variant % 2 == 0 else None          # even variants: the SAME python object in both fields
+        vals = [sc.build_value(tx, pool, shared), sc.build_value(ty_, pool, shared)]
+        if variant % 4 >= 2:
+            vals_kw = {"y": vals[1], "x": vals[0]}
+        else:
+            vals_kw = {"x": vals[0], "y": vals[1]}
+        obs = {"err": None}
+        try:
+            task = T(**vals_kw)
+            if [sc.shape_of(task.x), sc.shape_of(task.y)] != [sc.shape_of(v) for v in vals]:
+                return {"err": "harness: the input was coerced when the task was defined", "harness": True}
+            with Submitter(cache_root=tmp / "cache", worker="debug") as sub:
+                job = Job(task, submitter=sub, name="j")
+                jobdir = Path(job.cache_dir)
+                jobdir.mkdir(parents=True, exist_ok=True)
+                inp = job.inputs
+                staged = [inp["x"], inp["y"]]
+        except Exception as e:  # noqa
+            obs["err"] = f"{type(e).__name__}: {str(e)[:200]}"
+            return obs
+        obs["shape"] = [sc.shape_of(v) for v in staged]
+        leaves = [l for v in staged for l in sc.flatten(v)]
+        origs = [l for v in vals for l in sc.flatten(v)]
+        obs["leaves"] = []
+        for lf in leaves:
+            if isinstance(lf, int):
+                obs["leaves"].append({"dest": [], "content": [str(lf)]})
+                continue
+            dest = sc.leaf_paths(lf)
+            ins = [sc.inside(d, jobdir) for d in dest]
+            obs["leaves"].append({"dest": [str(Path(d).relative_to(jobdir)) if i else d.replace(str(tmp), "<tmp>") for d, i in zip(dest, ins)],
+                                  "content": sc.read_leaf(lf, salt), "inside": all(ins), "outside": not any(ins)})
+        for rec, lf, og in zip(obs["leaves"], leaves, origs):     # probes after everything was read, leaf by leaf
+            if not isinstance(lf, int):
+                rec["relation"] = probe_relation(sc.leaf_paths(og), sc.leaf_paths(lf))
+        return obs
+
+
+def judge2(case, obs, m1, m2):
+    if obs.get("harness"):
+        return "harness", obs["err"]
+    if obs["err"]:
+        return "staging-failed", obs["err"]
+    if [sc.norm_shape(x) for x in obs["shape"]] != [sc.norm_shape(x) for x in case["shape"]]:
+        return "shape-changed", obs["shape"]
+    lv = obs["leaves"]
+    if len(lv) != len(case["leaves"]):
+        return "leaf-count", len(lv)
+    for i, (l, exp, src, kind) in enumerate(zip(lv, case["content"], case["leaves"], case["shape_kinds"])):
+        if l["content"] != exp:
+            return "content-or-value-changed", {"leaf": i + 1, "expected": exp, "observed": l["content"]}
+        if src["o"] == "#":
+            continue
+        mode = (m1, m2)[src["f"] - 1]
+        want = case["modes"][mode]["any"][kind]              # Staging!LeafDemand: the leaf's OWN field decides
+        if want["stage"] and not l["inside"]:
+            return "not-staged-into-job-directory", {"leaf": i + 1, "field_mode": mode, "dest": l["dest"]}
+        rel = l["relation"]
+        if want["rel"] == "independent" and rel != "independent":
+            return "copy-not-independent", {"leaf": i + 1, "field_mode": mode, "relation": rel}
+        if want["rel"] == "linked" and rel != "linked":
+            return "link-does-not-show-original", {"leaf": i + 1, "field_mode": mode, "relation": rel}
+        if want["rel"] == "either" and rel not in ("linked", "independent", "same-path"):
+            return "inconsistent-relation", {"leaf": i + 1, "field_mode": mode, "relation": rel}
+    return "ok", None
+
+
+def with_kinds2(case):
+    def kinds(s):
+        return [s["o"]] if s["k"] == "leaf" else [x for k in s["kids"] for x in kinds(k)]
+    c = dict(case)
+    c["shape_kinds"] = [x for sh in case["shape"] for x in kinds(sh)]
+    return c
+
+
+def check2(arg):
+    case, info, m1, m2, variant = arg
+    case = with_kinds2(case)
+    obs = observe2(case, info, m1, m2, variant)
+    v, d = judge2(case, obs, m1, m2)
+    return v, d, (obs if v != "ok" else None)
+
+
+def two_fields(ctx, info):
+    """one task, two file fields with (possibly different) copy modes; TLC: Staging_Gen two-field cases + LeafDemand"""
+    _, cs = sc.generate(ctx, POOL, 2, True, True, 4)
+    cs = [c for c in cs if len(c["fields"]) == 2 and all(l["o"] != "#" for l in c["leaves"])]
+    across = [c for c in cs if c["across"]]
+    other = [c for c in cs if not c["across"]]
+    pairs = [(a, b) for a in MODES for b in MODES]
+    if ctx.thorough:
+        quads = [(c, a, b) for c in across for a, b in pairs] + [(c,) + ctx.rng.choice(pairs) for c in other]
+    else:
+        diff = [(a, b) for a, b in pairs if a != b]
+        quads = [(c,) + ctx.rng.choice(diff) for c in across] + \
+                [(ctx.rng.choice(across),) + pr for pr in pairs for _ in range(2)] + \
+                [(c,) + ctx.rng.choice(pairs) for c in ctx.rng.sample(other, 60)]
+    prepare2(ctx, quads)
+    args = [(c, info, a, b, n) for n, (c, a, b) in enumerate(quads)]
+    res = core.pmap(check2, args, chunksize=8)
+    nbad = 0
+    for a, (v, d, obs) in zip(args, res):
+        case, _, m1, m2, n = a
+        ctx.ran()
+        if case["across"] and m1 != m2:
+            ctx.nontriv((str(case["fields"]), m1, m2, "two-fields"))
+        if v == "harness":
+            ctx.observe("two-field case not evaluated: " + str(d))
+            continue
+        if v != "ok":
+            nbad += 1
+            if nbad > 6:
+                continue
+            v2, d2, obs2 = check2(a)
+            if v2 == "ok":
+                ctx.observe("non-reproducible failure (environment)", {"fields": case["fields"], "first": f"{v}: {d}"})
+                continue
+            ctx.violation(f"two file fields with their own copy modes (x: {m1}, y: {m2}): {v2}: {d2}",
+                          case={"tlc": case, "pool": info, "m1": m1, "m2": m2, "variant": n, "two_fields": True},
+                          expected={"per-leaf demand (Staging!LeafDemand)": [case["modes"][(m1, m2)[l["f"] - 1]]["any"]["file"]
+                                                                              for l in case["leaves"]], "content": case["content"]},
+                          observed=obs2)
+    ctx.extra["two_field_cases"] = {"space": len(cs), "same_object_in_both_fields": len(across), "evaluated": len(args)}
+
+
 def selftest(case, info):
     case = with_kinds(case)
     obs = observe(case, info, "copy", "any", 0)
@@ -286,6 +444,7 @@ def run(ctx):
             continue
         for t in set(notes):
             ctx.observe(t)
+    two_fields(ctx, info)
     # two fields with same-named files (observation only)
     mod = sc.load_defs(ctx, "c34_xfield_defs", sc.HEADER + "".join(f"""
 @python.define(inputs={{"x": python.arg(type=File, copy_mode=File.CopyMode.{m}), "y": python.arg(type=File, copy_mode=File.CopyMode.{m})}})
@@ -303,6 +462,17 @@ def X{i}(x, y) -> int:
 
 def replay(ctx, rec):
     c = rec["case"]
+    if c.get("two_fields"):
+        prepare2(ctx, [(c["tlc"], c["m1"], c["m2"])])
+        sc.BASE = str(ctx.scratch)
+        sc.private_hash_cache(ctx)
+        v, d, obs = check2((c["tlc"], c["pool"], c["m1"], c["m2"], c.get("variant", 0)))
+        ctx.ran()
+        print("replay verdict:", v, d)
+        if v not in ("ok", "harness"):
+            ctx.violation(f"replay: two file fields (x: {c['m1']}, y: {c['m2']}): {v}: {d}", case=c,
+                          expected=rec.get("expected"), observed=obs)
+        return
     prepare(ctx, [(c["tlc"], c["mode"], c["coll"])], name="c34_replay_defs")
     sc.BASE = str(ctx.scratch)
     sc.private_hash_cache(ctx)
